@@ -6,12 +6,12 @@ PROP = {
     "jobs": [
         job("frag", "core", "./internal/frag/", "frag",
             ["harness/core/internal/frag/c05_test.go"], "^TestVerifC05",
-            ["frag-split", "frag-reassemble", "frag-interleave"], race=False,
+            ["frag-split", "frag-reassemble", "frag-interleave", "frag-retain"], race=False,
             timeout_quick=600, timeout_thorough=3600),
         job("server-send", "core", "./server/", "server",
             ["harness/core/server/c05_send_test.go"], "^TestVerifC05ServerSend$", ["server-send"]),
         job("server-session", "core", "./server/", "server",
-            ["harness/core/server/c05_session_test.go"], "^TestVerifC05Server(Session|ReceiveOrder)$", ["server-session", "server-recv-order"]),
+            ["harness/core/server/c05_session_test.go"], "^TestVerifC05Server(Session|ReceiveOrder|Backpressure)$", ["server-session", "server-recv-order", "server-backpressure"]),
         job("client-send", "core", "./client/", "client",
             ["harness/core/client/c05_send_test.go"], "^TestVerifC05Client", ["client-send", "client-session"]),
     ],
